@@ -53,9 +53,10 @@ type relT struct {
 	Related string `json:"r"`
 }
 type docT struct {
-	Pkgs []pkgT   `json:"packages"`
-	Rels []relT   `json:"relationships"`
-	Desc []string `json:"describes"`
+	Pkgs []pkgT      `json:"packages"`
+	Rels []relT      `json:"relationships"`
+	Desc []string    `json:"describes"`
+	Lics [][2]string `json:"licensing_infos,omitempty"` // hasExtractedLicensingInfos: (licenseId, extractedText)
 }
 
 const (
@@ -111,6 +112,25 @@ func galDoc(d *docT) string {
 	}
 	return fmt.Sprintf("(mkd %s %s %s)", gal.List(ps), gal.List(rs), gal.StrList(d.Desc))
 }
+func galLics(l [][2]string) string {
+	it := make([]string, len(l))
+	for i, x := range l {
+		it[i] = fmt.Sprintf("(mkl %s %s)", gal.Str(x[0]), gal.Str(x[1]))
+	}
+	return gal.List(it)
+}
+
+// the licensing infos of the embedded documents, by file name (the model keeps them next to g_fs)
+func galLfs(g genIn) string {
+	var it []string
+	for _, e := range g.FS {
+		if e.Kind == kDoc && len(e.Doc.Lics) > 0 {
+			it = append(it, gal.Pair(gal.Str(e.Key), galLics(e.Doc.Lics)))
+		}
+	}
+	return gal.List(it)
+}
+
 func galObs(o obsT) string {
 	switch o.Kind {
 	case 0:
@@ -158,6 +178,9 @@ func toSPDX(d *docT) *spdx.Document {
 	for _, r := range d.Rels {
 		out.Relationships = append(out.Relationships, spdx.Relationship{Element: r.Elem, Type: r.Type, Related: r.Related})
 	}
+	for _, l := range d.Lics {
+		out.LicensingInfos = append(out.LicensingInfos, spdx.LicensingInfo{LicenseID: l[0], ExtractedText: l[1]})
+	}
 	return out
 }
 
@@ -174,6 +197,9 @@ func fromSPDX(d *spdx.Document) *docT {
 		out.Rels = append(out.Rels, relT{r.Element, r.Type, r.Related})
 	}
 	out.Desc = append(out.Desc, d.DocumentDescribes...)
+	for _, l := range d.LicensingInfos {
+		out.Lics = append(out.Lics, [2]string{l.LicenseID, l.ExtractedText})
+	}
 	return out
 }
 
@@ -393,7 +419,10 @@ type genDesc struct {
 	Note string `json:"note,omitempty"`
 }
 
+var genShapes = shapeCount{}
+
 func genCase(w *gal.Writer, g genIn, class, note string) {
+	genShapes.add(g)
 	runs := 1
 	if multiTarget(g) {
 		runs = 200 // Go ranges over the targetElementIDs map in random order: collect every outcome
@@ -455,6 +484,7 @@ func corpusGen(w *gal.Writer) {
 	bar := apkT{"bar", "2.0-r1", sum(7), ""}
 	fooE, barE := mainElem(foo), mainElem(bar)
 	src := pkgT{ID: "SPDXRef-Package-github.com-foo-src", Name: "foo-src", Version: "abc"}
+	barSrc0 := pkgT{ID: "SPDXRef-Package-vendored-lib", Name: "vendored-lib", Version: "0.1"}
 	fooDoc := &docT{Pkgs: []pkgT{fooE, src}, Desc: []string{fooE.ID},
 		Rels: []relT{{"SPDXRef-DOCUMENT", "DESCRIBES", fooE.ID}, {fooE.ID, "GENERATED_FROM", src.ID}, {fooE.ID, "CONTAINS", "SPDXRef-File-usr-bin-foo"}}}
 	genCase(w, base([]apkT{musl, foo}, []fsEnt{{"foo-1.0-r0.spdx.json", kDoc, fooDoc}}), "corpus/embedded-simple", "")
@@ -468,6 +498,26 @@ func corpusGen(w *gal.Writer) {
 	genCase(w, base([]apkT{foo}, []fsEnt{{"foo-1.0-r0.spdx.json", kDoc, &docT{Pkgs: []pkgT{fooE, src}, Desc: []string{src.ID},
 		Rels: []relT{{src.ID, "CONTAINS", fooE.ID}}}}}), "corpus/embedded-no-target", "described element has another name: nothing is copied")
 	genCase(w, base([]apkT{foo}, []fsEnt{{"foo-1.0-r0.spdx.json", kDoc, &docT{Pkgs: []pkgT{fooE}, Desc: nil, Rels: nil}}}), "corpus/embedded-no-target", "nothing described")
+	// the document is found through the <name>.spdx.json fallback and its package list starts with a same-named element that is
+	// NOT described (the upstream source), the described apk element comes after it: one target, the other is copied through
+	// the relationship only
+	fooUp0 := pkgT{ID: "SPDXRef-Package-foo-upstream-src", Name: "foo", Version: "1.0"}
+	genCase(w, base([]apkT{musl, foo}, []fsEnt{{"foo.spdx.json", kDoc, &docT{Pkgs: []pkgT{fooUp0, fooE}, Desc: []string{fooE.ID},
+		Rels: []relT{{fooE.ID, "GENERATED_FROM", fooUp0.ID}}}}}), "corpus/embedded-same-name-not-described-first", "only the described element is a target")
+	genCase(w, base([]apkT{foo}, []fsEnt{{"foo.spdx.json", kDoc, &docT{Pkgs: []pkgT{fooUp0, fooE, src}, Desc: []string{fooE.ID},
+		Rels: []relT{{fooE.ID, "GENERATED_FROM", src.ID}}}}}), "corpus/embedded-same-name-not-described-first", "the same-named element is not even referenced: it stays out")
+	// found through the fallback, the document describes a differently named package (the origin) only
+	origin := pkgT{ID: "SPDXRef-Package-foo-origin-1.0-r0", Name: "foo-origin", Version: "1.0-r0"}
+	genCase(w, base([]apkT{foo}, []fsEnt{{"foo.spdx.json", kDoc, &docT{Pkgs: []pkgT{origin, src}, Desc: []string{origin.ID},
+		Rels: []relT{{origin.ID, "GENERATED_FROM", src.ID}}}}}), "corpus/embedded-describes-another-name", "no element carries the apk's name: nothing is copied")
+	genCase(w, base([]apkT{foo}, []fsEnt{{"foo.spdx.json", kDoc, &docT{Pkgs: []pkgT{origin, fooE, src}, Desc: []string{origin.ID},
+		Rels: []relT{{origin.ID, "CONTAINS", fooE.ID}}}}}), "corpus/embedded-describes-another-name", "a same-named element that is not described: nothing is copied")
+	// a chain two deep listed in flow order (one sweep finds everything, a second one confirms)
+	genCase(w, base([]apkT{foo}, []fsEnt{{"foo-1.0-r0.spdx.json", kDoc, &docT{Pkgs: []pkgT{fooE, src, barSrc0}, Desc: []string{fooE.ID},
+		Rels: []relT{{fooE.ID, "GENERATED_FROM", src.ID}, {src.ID, "DEPENDS_ON", barSrc0.ID}}}}}), "corpus/embedded-chain", "depth 2")
+	// the same chain listed AGAINST the flow: the second element is only found by a second sweep
+	genCase(w, base([]apkT{foo}, []fsEnt{{"foo-1.0-r0.spdx.json", kDoc, &docT{Pkgs: []pkgT{fooE, src, barSrc0}, Desc: []string{fooE.ID},
+		Rels: []relT{{src.ID, "DEPENDS_ON", barSrc0.ID}, {fooE.ID, "GENERATED_FROM", src.ID}}}}}), "corpus/embedded-chain", "depth 2, two productive sweeps")
 	// two apks share an imported element: de-duplicated at the end
 	barDoc := &docT{Pkgs: []pkgT{barE, src}, Desc: []string{barE.ID}, Rels: []relT{{barE.ID, "GENERATED_FROM", src.ID}}}
 	genCase(w, base([]apkT{foo, bar}, []fsEnt{{"foo-1.0-r0.spdx.json", kDoc, fooDoc}, {"bar-2.0-r1.spdx.json", kDoc, barDoc}}), "corpus/embedded-shared-element", "")
@@ -622,6 +672,40 @@ func randomGen(w *gal.Writer, r *gal.Rand, embedded bool, wild bool) {
 				alt.ID += "-alt"
 				d.Pkgs = append(d.Pkgs, alt)
 				d.Desc = append(d.Desc, alt.ID)
+				if r.Chance(1, 4) { // a third one (C11-F3 territory: six map orders)
+					third := me
+					third.ID += "-third"
+					d.Pkgs = append(d.Pkgs, third)
+					d.Desc = append(d.Desc, third.ID)
+				}
+			}
+			if r.Chance(1, 7) {
+				// a same-named element that is NOT described (the upstream source), listed before the apk element
+				up := pkgT{ID: me.ID + "-upstream", Name: a.Name, Version: "0"}
+				d.Pkgs = append([]pkgT{up}, d.Pkgs...)
+			}
+			switch {
+			case r.Chance(1, 12):
+				d.Desc = nil // nothing described
+			case r.Chance(1, 10) && len(d.Pkgs) > 1 && len(d.Desc) == 1:
+				// describes a differently named element only (a subpackage shipping its origin's document)
+				for _, q := range d.Pkgs {
+					if q.Name != a.Name {
+						d.Desc = []string{q.ID}
+						break
+					}
+				}
+			}
+			var chain []relT
+			if r.Chance(1, 5) {
+				// a chain below the apk element, three or four deep, listed against the flow
+				prev := me.ID
+				for i, k := 0, 3+r.Intn(2); i < k; i++ {
+					c := pkgT{ID: fmt.Sprintf("%s-dep%d", me.ID, i), Name: fmt.Sprintf("dep%d", i), Version: "1"}
+					d.Pkgs = append(d.Pkgs, c)
+					chain = append([]relT{{prev, "DEPENDS_ON", c.ID}}, chain...)
+					prev = c.ID
+				}
 			}
 			nrel := r.Intn(2 * len(d.Pkgs))
 			d.Rels = append(d.Rels, relT{"SPDXRef-DOCUMENT", "DESCRIBES", me.ID})
@@ -639,6 +723,7 @@ func randomGen(w *gal.Writer, r *gal.Rand, embedded bool, wild bool) {
 				}
 				d.Rels = append(d.Rels, relT{e, gal.Pick(r, []string{"CONTAINS", "DEPENDS_ON", "GENERATED_FROM"}), t})
 			}
+			d.Rels = append(d.Rels, chain...)
 			if r.Chance(1, 3) {
 				r2 := d.Rels
 				for i := len(r2) - 1; i > 0; i-- { // shuffle: sweeps against the flow
@@ -731,8 +816,13 @@ func randomTwoTargets(w *gal.Writer, r *gal.Rand) {
 }
 
 func generateStage(dir string, seed uint64, tier string) error {
-	w := &gal.Writer{Dir: dir, Require: "From Apko Require Import Corr.C11.", Type: "gen_case", Check: "check_gen", Shard: 60}
+	w := &gal.Writer{Dir: dir, Require: "From Apko Require Import Corr.C11.", Type: "gen_case", Check: "check_gen", Shard: 40}
 	corpusGen(w)
+	if m := genShapes.missing(); len(m) > 0 {
+		return fmt.Errorf("generate: the corpus no longer has an embedded SBOM of shape %v", m)
+	}
+	genShapes.stat("embedded_sbom_shapes_corpus")
+	genShapes = shapeCount{}
 	r := gal.NewRand(seed + 23)
 	n := 240
 	if tier == "thorough" {
@@ -754,6 +844,7 @@ func generateStage(dir string, seed uint64, tier string) error {
 	for i := 0; i < n/8; i++ {
 		randomTwoTargets(w, r2)
 	}
+	genShapes.stat("embedded_sbom_shapes_random")
 	return w.Flush()
 }
 
@@ -775,7 +866,7 @@ func indexStage(dir string, seed uint64, tier string) error {
 	add(idxIn{Index: sha(r), Images: []hashT{sha(r)}}, "corpus/one-image")
 	add(idxIn{Index: sha(r), Images: []hashT{sha(r), sha(r)}, VCS: "git+ssh://github.com/o/r.git@" + hexOf(r, 40)}, "corpus/two-images-vcs")
 	add(idxIn{Index: hashT{"sha512", hexOf(r, 128)}, Images: []hashT{{"sha512", hexOf(r, 128)}}}, "corpus/sha512")
-	n := 60
+	n := 36
 	if tier == "thorough" {
 		n = 600
 	}
@@ -817,7 +908,7 @@ var idpool = []string{"SPDXRef-a", "SPDXRef-b", "SPDXRef-c", "SPDXRef-d", "SPDXR
 
 func replStage(dir string, seed uint64, tier string) error {
 	r := gal.NewRand(seed + 51)
-	n := 300
+	n := 200
 	if tier == "thorough" {
 		n = 3000
 	}
@@ -836,7 +927,7 @@ func replStage(dir string, seed uint64, tier string) error {
 
 func copyStage(dir string, seed uint64, tier string) error {
 	r := gal.NewRand(seed + 53)
-	n := 300
+	n := 200
 	if tier == "thorough" {
 		n = 3000
 	}
@@ -864,11 +955,166 @@ func copyStage(dir string, seed uint64, tier string) error {
 	return w2.Flush()
 }
 
+// ---- stages: licensing infos ---------------------------------------------------------------------
+
+var licTexts = []string{"Permission is hereby granted", "Redistribution and use", "GNU GENERAL PUBLIC LICENSE", "", "text with \"quotes\" and\nnewline", "ü"}
+
+func randLics(r *gal.Rand, n int, idspace int) [][2]string {
+	var out [][2]string
+	for i := 0; i < n; i++ {
+		k := r.Intn(idspace)
+		// one canonical text per id most of the time, now and then another one (a conflict)
+		t := licTexts[k%len(licTexts)]
+		if r.Chance(1, 12) {
+			t = licTexts[r.Intn(len(licTexts))]
+		}
+		out = append(out, [2]string{fmt.Sprintf("LicenseRef-%d", k), t})
+	}
+	return out
+}
+
+func toLicDoc(l [][2]string) *spdx.Document {
+	d := &spdx.Document{}
+	for _, x := range l {
+		d.LicensingInfos = append(d.LicensingInfos, spdx.LicensingInfo{LicenseID: x[0], ExtractedText: x[1]})
+	}
+	return d
+}
+
+func mlicCases(w *gal.Writer, seed uint64, tier string) {
+	add := func(src, tgt [][2]string, class string) {
+		td := toLicDoc(tgt)
+		err := spdx.VerifMergeLicensingInfos(toLicDoc(src), td)
+		obs := "None"
+		var od [][2]string
+		if err == nil {
+			for _, l := range td.LicensingInfos {
+				od = append(od, [2]string{l.LicenseID, l.ExtractedText})
+			}
+			obs = "(Some " + galLics(od) + ")"
+		}
+		w.Add(gal.Case{Term: fmt.Sprintf("(LMerge {| ml_src := %s; ml_tgt := %s; ml_obs := %s |})", galLics(src), galLics(tgt), obs),
+			Class: fmt.Sprintf("merge/%s/err=%v", class, err != nil), Trivial: len(src) == 0,
+			Desc: map[string]any{"source": src, "target": tgt, "error": err != nil, "observed_target": od}})
+	}
+	a, a2, b, c := [2]string{"LicenseRef-A", "text a"}, [2]string{"LicenseRef-A", "other text"}, [2]string{"LicenseRef-B", "text b"}, [2]string{"LicenseRef-C", ""}
+	add(nil, nil, "corpus")
+	add([][2]string{a}, nil, "corpus")
+	add(nil, [][2]string{a}, "corpus")
+	add([][2]string{a, b}, [][2]string{b, c}, "corpus")
+	add([][2]string{a, a}, nil, "corpus")                // the appended info is seen by the next source info
+	add([][2]string{a, a2}, nil, "corpus")               // conflict inside the source
+	add([][2]string{a2}, [][2]string{a}, "corpus")       // conflict with the target
+	add([][2]string{a2}, [][2]string{a, a2}, "corpus")   // the FIRST target info of the id decides: error
+	add([][2]string{a}, [][2]string{a, a2}, "corpus")    // ... no error
+	add([][2]string{b, a2, c}, [][2]string{a}, "corpus") // b is appended before the error
+	r := gal.NewRand(seed + 61)
+	n := 150
+	if tier == "thorough" {
+		n = 3000
+	}
+	for i := 0; i < n; i++ {
+		ids := 2 + r.Intn(5)
+		add(randLics(r, r.Intn(5), ids), randLics(r, r.Intn(5), ids), "random")
+	}
+}
+
+type licDesc struct {
+	In   genIn       `json:"input"`
+	Obs  obsT        `json:"observed"`
+	Lics [][2]string `json:"observed_licensing_infos"`
+}
+
+func licCase(w *gal.Writer, g genIn, class string) {
+	o := runGenerate(g)
+	var lics [][2]string
+	if o.Kind == 0 {
+		lics = o.Doc.Lics
+	}
+	nl := 0
+	for _, e := range g.FS {
+		if e.Kind == kDoc {
+			nl += len(e.Doc.Lics)
+		}
+	}
+	term := fmt.Sprintf("(LGen {| lc_in := %s; lc_lfs := %s; lc_obs := %s; lc_lics := %s |})", galGenIn(g), galLfs(g), galObs(o), galLics(lics))
+	w.Add(gal.Case{Term: term, Class: fmt.Sprintf("generate/%s/outcome=%d", class, o.Kind), Trivial: nl == 0, Desc: licDesc{g, o, lics}})
+}
+
+func licStage(dir string, seed uint64, tier string) error {
+	w := &gal.Writer{Dir: dir, Require: "From Apko Require Import Corr.C11.", Type: "licx_case", Check: "check_licx", Shard: 70}
+	mlicCases(w, seed, tier)
+	r := gal.NewRand(4243)
+	img := "sha256:" + hexOf(r, 64)
+	l1 := sha(r)
+	foo, bar, baz := apkT{"foo", "1.0-r0", []byte{6}, ""}, apkT{"bar", "2.0-r1", []byte{7}, "noarch"}, apkT{"baz", "3", []byte{8}, ""}
+	fooE, barE := mainElem(foo), mainElem(bar)
+	src := pkgT{ID: "SPDXRef-Package-src", Name: "src", Version: "1"}
+	mit, mit2, bsd := [2]string{"LicenseRef-MIT-foo", "Permission is hereby granted"}, [2]string{"LicenseRef-MIT-foo", "another text"}, [2]string{"LicenseRef-BSD", "Redistribution and use"}
+	doc := func(me pkgT, lics ...[2]string) *docT {
+		return &docT{Pkgs: []pkgT{me, src}, Desc: []string{me.ID}, Rels: []relT{{me.ID, "GENERATED_FROM", src.ID}}, Lics: lics}
+	}
+	base := func(apks []apkT, fs []fsEnt) genIn {
+		return genIn{Image: img, Layers: []hashT{l1}, OSVer: "3.19", Apks: apks, FS: fs}
+	}
+	licCase(w, base([]apkT{foo}, []fsEnt{{"foo-1.0-r0.spdx.json", kDoc, doc(fooE, mit)}}), "corpus/one-document")
+	licCase(w, base([]apkT{foo, bar}, []fsEnt{{"foo-1.0-r0.spdx.json", kDoc, doc(fooE, mit, bsd)}, {"bar.spdx.json", kDoc, doc(barE, bsd, mit)}}), "corpus/shared-infos")
+	licCase(w, base([]apkT{foo, bar}, []fsEnt{{"foo-1.0-r0.spdx.json", kDoc, doc(fooE, mit)}, {"bar-2.0.spdx.json", kDoc, doc(barE, bsd, mit2)}}), "corpus/conflicting-text")
+	licCase(w, base([]apkT{foo}, []fsEnt{{"foo-1.0-r0.spdx.json", kDoc, doc(fooE, mit, mit2)}}), "corpus/conflict-inside-one-document")
+	licCase(w, base([]apkT{foo}, []fsEnt{{"foo-1.0-r0.spdx.json", kDoc, doc(fooE, mit, mit)}}), "corpus/duplicate-inside-one-document")
+	// the infos of a document that is NOT used (no installed apk locates it) stay out
+	licCase(w, base([]apkT{foo}, []fsEnt{{"foo-1.0-r0.spdx.json", kDoc, doc(fooE, mit)}, {"bar.spdx.json", kDoc, doc(barE, bsd)}}), "corpus/unused-document")
+	// nothing described: nothing is copied, the infos are merged all the same
+	licCase(w, base([]apkT{foo}, []fsEnt{{"foo.spdx.json", kDoc, &docT{Pkgs: []pkgT{fooE}, Lics: [][2]string{bsd}}}}), "corpus/no-target")
+	// the copy fails before the merge; the first candidate file wins over a later one with other infos
+	licCase(w, base([]apkT{foo}, []fsEnt{{"foo-1.0-r0.spdx.json", kDoc, &docT{Pkgs: []pkgT{fooE}, Desc: []string{fooE.ID},
+		Rels: []relT{{fooE.ID, "DEPENDS_ON", "SPDXRef-Package-absent"}}, Lics: [][2]string{mit}}}}), "corpus/copy-fails")
+	licCase(w, base([]apkT{foo}, []fsEnt{{"foo.spdx.json", kDoc, doc(fooE, bsd)}, {"foo-1.0.spdx.json", kDoc, doc(fooE, mit)}}), "corpus/first-candidate")
+	licCase(w, base([]apkT{foo, baz}, []fsEnt{{"foo-1.0-r0.spdx.json", kBad, nil}, {"baz-3.spdx.json", kDoc, doc(mainElem(baz), mit)}}), "corpus/unparseable-then-document")
+	rr := gal.NewRand(seed + 67)
+	n := 40
+	if tier == "thorough" {
+		n = 600
+	}
+	for i := 0; i < n; i++ {
+		g := genIn{Image: "sha256:" + hexOf(rr, 64), Layers: []hashT{sha(rr)}, OSVer: "3.19"}
+		seen := map[string]bool{}
+		ids := 2 + rr.Intn(5)
+		for k, m := 0, 1+rr.Intn(5); k < m; k++ {
+			a := apkT{genName(rr), genVersion(rr), []byte{byte(k)}, gal.Pick(rr, []string{"", "", "noarch"})}
+			if seen[a.Name] || strings.Contains(a.Name, "/") {
+				continue
+			}
+			seen[a.Name] = true
+			g.Apks = append(g.Apks, a)
+			if !rr.Chance(3, 4) {
+				continue
+			}
+			me := mainElem(a)
+			d := doc(me, randLics(rr, rr.Intn(4), ids)...)
+			if rr.Chance(1, 8) {
+				d.Desc = nil
+			}
+			key := a.Name + "-" + a.Version + ".spdx.json"
+			if rr.Chance(1, 3) {
+				key = a.Name + ".spdx.json"
+			}
+			kind := kDoc
+			if rr.Chance(1, 15) {
+				kind = kBad
+			}
+			g.FS = append(g.FS, fsEnt{key, kind, d})
+		}
+		licCase(w, g, "random")
+	}
+	return w.Flush()
+}
+
 func main() {
 	out := flag.String("out", "", "cases directory")
 	seed := flag.Uint64("seed", 1, "seed")
 	tier := flag.String("tier", "quick", "tier")
-	stage := flag.String("stage", "generate", "ident|generate|index|repl|copy|e2e")
+	stage := flag.String("stage", "generate", "ident|generate|index|repl|copy|e2e|lic")
 	_ = flag.String("replay", "", "unused: cases are regenerated from the seed")
 	flag.Parse()
 	charmlog.SetOutput(io.Discard)
@@ -892,6 +1138,8 @@ func main() {
 		err = copyStage(*out, *seed, *tier)
 	case "e2e":
 		err = e2eStage(*out, *seed, *tier)
+	case "lic":
+		err = licStage(*out, *seed, *tier)
 	default:
 		err = fmt.Errorf("unknown stage %q", *stage)
 	}
